@@ -70,7 +70,7 @@ def run_probe(prop, name):
     from checks import monitored as M
     from checks import common
     p = PROBES[prop][name]
-    r = M.check(prop, p["scenario"], 1, extra_probes={"probe:" + name: 1})
+    r = M.check(prop, p["scenario"], 1, extra_probes={"probe:" + name: 1}, judge_all=True)
     if "harness_error" in r:
         return r
     out = []
